@@ -97,9 +97,9 @@ PROPS = {
                         "V10_parse.Global.*", "V10_parse.fn:Global::from_wasmparser", "V10_parse.fn:Error as From::from",
                         "V10_parse.parse_tag_section.*", "V10_parse.fn:parse_tag_section", "V10_parse.parse_function_names.*", "V10_parse.fn:parse_function_names",
                         "V10_parse.apply_function_names.*", "V10_parse.fn:apply_function_names", "V10_parse.parse_producers.*", "V10_parse.fn:parse_producers",
-                        "V10_parse.build_local_functions.*", "V10_parse.fn:build_local_functions", "V10_parse.fn:Function::new", "V10_parse.fn:Import::is_function",
+                        "V10_parse.build_local_functions.*", "V10_parse.fn:build_local_functions", "V10_parse.add_to_sections.*", "V10_parse.fn:Component::add_to_sections", "V10_parse.parse_module_section.*", "V10_parse.fn:parse_module_section", "V10_parse.parse_component_section.*", "V10_parse.fn:Component::parse_component_section", "V10_parse.fn:Function::new", "V10_parse.fn:Import::is_function",
                         "V7_types.fn:ModuleTypes::new", "V6_api.fn:LocalFunction::new"],
-        "glue": ["the payload loops of Module::parse_internal and Component::parse_comp (480 + 300 lines) are NOT under contract as a whole; five regions of parse_internal are (rule R16): the tag-section loop, the function-names loop, the application of the names, the producers section, the construction of the local functions. The other arms (type / import / table / memory / global / export / element / data / code entries) and `_ => todo!()` (unreachable for this wasmparser version: every Payload variant is listed) are not decided",
+        "glue": ["the payload loops of Module::parse_internal and Component::parse_comp (480 + 300 lines) are NOT under contract as a whole; five regions of parse_internal are (rule R16): the tag-section loop, the function-names loop, the application of the names, the producers section, the construction of the local functions; and two of parse_comp: the core-module and nested-component section arms (slicing the input with the unchecked range of the section header). The other arms (type / import / table / memory / global / export / element / data / code entries) and `_ => todo!()` (unreachable for this wasmparser version: every Payload variant is listed) are not decided",
                  "rule R18: loops over wasmparser section readers are written as `loop { match next() .. }`; the readers are TRUSTED to yield any item or error and to terminate",
                  "the precondition functions.len() == code_sections.len() of the local-functions region is established by the IncorrectCodeCounts check a few lines above it (read, not proved)",
                  "ElementKind / ElementItems / DataSegment::from_wasmparser and ModuleImports / ModuleGlobals::new are not under contract",
